@@ -366,7 +366,11 @@ def make_pcpp_preprocessor(
                     base, _ = os.path.splitext(filename)
                     target = f"{base}.o"
                 else:
-                    target = " ".join(deptarget)
+                    # quote the targets for make, as gcc's -MQ does
+                    target = " ".join(
+                        t.replace("$", "$$").replace("#", "\\#").replace(" ", "\\ ")
+                        for t in deptarget
+                    )
 
             # pcpp emits the #line directive using the filename you pass in
             # but will rewrite it if it's on the include path it uses. This
